@@ -723,8 +723,10 @@ where
         let frames = chunk_size as f64;
         let advance = frames * t_start + (t_end - t_start) * (frames + 1.0) / 2.0;
         // The interpolation points of the last frame may belong to the next input index,
-        // whose kernel window ends one frame later: floor + 1 instead of ceil.
-        ((last_index + advance + sinc_len as f64).floor() + 1.0).max(0.0) as usize
+        // whose kernel window ends one frame later. The position the loop arrives at is the
+        // rounded sum of the steps and can differ from this closed form in the last bits, so
+        // an exact integer must not decide: one frame on top of the rounded-up value.
+        ((last_index + advance + sinc_len as f64).ceil() + 1.0).max(0.0) as usize
     }
 }
 
